@@ -139,7 +139,7 @@ PROPS = {
                         "never panics (quotient split, see DESIGN §6.1)"],
     },
     "C07": {
-        "v_units": ["range.py"],
+        "v_units": ["truncate.py"],
         "r": [("composer_leaves", None)],
         "claim": "shape independence as non-interference: every verified component contract states gates(final) == gates(old) + shape(...) "
                  "where shape is a function of wire INDICES and constant parameters only (no witness value occurs in it), for all field "
@@ -198,6 +198,22 @@ PROPS = {
         "design_ref": "DESIGN.md §4 C10",
         "assumptions": A_RING, "trusted": T_RING,
         "not_covered": ["append_logic_component layout", "returned witness == AND/XOR of truncated inputs (lemma)"],
+    },
+    "C11": {
+        "v_units": ["truncate.py"],
+        "claim": "layout of truncation for EVERY width N <= 254: component_truncate::<N> emits exactly trunc_rows(N) = range check of the "
+                 "low part on N bits, then bind_truncation_split (range check of the high part on 255-N bits, recomposition row "
+                 "2^N*high + low, closing equality with the input) and assert_canonical_truncation (diff = r_high - high range-checked, "
+                 "is-zero gadget inverse/product/is_top, diff*is_top = 0, guard = is_top*(r_low - low) range-checked on N bits) with "
+                 "r_high, r_low the split of r-1 at bit N (as bit sums of to_bits(-1)); returned witness = the low part; recompose_bits "
+                 "== little-endian bit sum mod r (loop invariant).",
+        "technique": "contract-based deductive verification: Verus on the real functions annotated in place (overlay)",
+        "level_note": "NOT covered: component_decomposition (fold with &mut-capturing closure; not yet under contract), honest witness values, "
+                      "the canonical-split lemma (rows satisfiable <=> low == cv(x) mod 2^N).",
+        "design_ref": "DESIGN.md §4 C11",
+        "assumptions": A_VERUS + ["CANON model", "BlsScalar::{to_bits, pow_of_2, invert} contracts", "cut_le_bits"],
+        "trusted": T_VERUS,
+        "not_covered": ["component_decomposition", "semantic lemma for truncation"],
     },
     "C12": {
         "r": [("widgets", lambda n: n.startswith("curve_addition."))],
